@@ -1,6 +1,7 @@
 import ElkVerif.Proofs.Lex
 import ElkVerif.Proofs.TokWin
 import ElkVerif.Proofs.RegexTotal
+import ElkVerif.Proofs.RegexFront
 /-!
 # C03 — The front end is total
 
@@ -11,6 +12,9 @@ What is a theorem here, and about what:
   run emits at most `|src|` tokens;
 * panic-mode `synchronise` of the parser's token window (`Model/TokWin.lean`) stops within the remaining tokens, at
   END_OF_FILE or at a statement separator.
+* the regex LEXER port (`Model/Regex/Front.lean`, tied to `regex/lexer` + `regex/parser` by the correspondence of
+  checks/c03.py and checks/c21.py on pattern TEXT, malformed patterns included) always advances; the regex PARSER port is a
+  total function by fuel (8·tokens + 16), answering `stuck` if the fuel ran out — never observed, NOT proved impossible.
 For the Elk lexer, parser, macro expander and checker proper there is NO model and no theorem: they are covered only by
 the crash/hang search of checks/c03.py.
 -/
@@ -60,6 +64,18 @@ theorem regex_total (r : Node) (f : Flags) (h : caretOk r = true) :
   | ok out => exact Or.inl ⟨out, rfl⟩
   | errs msgs => exact Or.inr ⟨msgs, rfl⟩
   | panic => exact absurd hr hp
+
+open Elk.Regex.Front in
+/-- **The regex lexer always advances** (port of `regex/lexer`, `Model/Regex/Front.lean`): scanning a non-empty input —
+a token or a skipped `(?#…)` group — leaves strictly less input. This is the statement the unfixed lexer violated on an
+unterminated `(?#`. -/
+theorem regex_lex_progress (b : Nat) (bs : List Nat) : (scan (b :: bs)).rest.length < (b :: bs).length :=
+  scan_lt b bs
+
+open Elk.Regex.Front in
+/-- … hence the fuel of the token loop never cuts it short: any fuel above the input length gives the same tokens. -/
+theorem regex_lex_total (f g : Nat) (bs : List Nat) (hf : bs.length < f) (hg : bs.length < g) :
+    lexAll f bs = lexAll g bs := lexAll_fuel f g bs hf hg
 
 /-- the hypothesis of `regex_total` is met by trees without caret escapes, e.g. `[a\W]+` … -/
 example : Elk.Regex.caretOk (.oneOrMore (.charClass (.cons (.char 97) (.cons .notWord .nil)) false) false) = true := by decide
